@@ -591,14 +591,23 @@ class NetCDFRead(IORead):
             )
             flat_nc.set_fill_off()
 
-            # Flatten the file
-            netcdf_flatten(nc, flat_nc, strict=False, omit_data=True)
-
             # Store the original grouped file. This is primarily
             # because the unlimited dimensions in the flattened
             # dataset have size 0, since it contains no
             # data. (v1.8.8.1)
+            #
+            # This, and the registration of the temporary file, is
+            # done before the flattening so that `file_close` closes
+            # them also when the flattening fails.
             g["nc_grouped"] = nc
+            g["flat_files"].append(flat_file)
+
+            # Flatten the file
+            try:
+                netcdf_flatten(nc, flat_nc, strict=False, omit_data=True)
+            except BaseException:
+                flat_nc.close()
+                raise
 
             nc = flat_nc
 
@@ -606,7 +615,6 @@ class NetCDFRead(IORead):
             hdf = False
 
             g["has_groups"] = True
-            g["flat_files"].append(flat_file)
 
         g["netCDF4"] = netcdf
         g["h5netcdf"] = hdf
